@@ -148,6 +148,61 @@ Fixpoint val (s : list he) (t : rtree) (pv : option oid) : poly :=
 
 Definition sd_denote (t : rtree) (d : sd) : poly := val (hes d) t None.
 
+(* The same sum, selection by selection.  A selection of the subtree t is a tree of the same
+   shape carrying one hyperedge per node (`stree`); `sels s t pv` enumerates the consistent
+   ones (the hyperedge of every node sits on the vertex its parent's hyperedge points to;
+   equal hyperedges at different list positions count separately), `wt` is the weight
+   prod(lambda) * prod(gamma) (x) labels in pre-order.  ModelProofs.val_selections:
+   val s t pv = map wt (sels s t pv). *)
+Inductive stree : Type := SNode (h : he) (subs : list stree).
+Section Selc.
+  Variable f : rtree -> oid -> list stree.
+  Fixpoint selc (cs : list rtree) (vs : list oid) : list (list stree) :=
+    match cs, vs with
+    | [], [] => [[]]
+    | c :: cs', x :: vs' => flat_map (fun a => map (cons a) (selc cs' vs')) (f c x)
+    | _, _ => []
+    end.
+End Selc.
+Fixpoint sels (s : list he) (t : rtree) (pv : option oid) : list stree :=
+  match t with
+  | RNode v cs =>
+      flat_map (fun h =>
+                  if Nat.eqb (hnode h) v then
+                    match child_verts pv h with
+                    | Some vs => map (SNode h) (selc (fun c x => sels s c (Some x)) cs vs)
+                    | None => []
+                    end
+                  else []) s
+  end.
+Definition mmul2 (a b : Q * key) : Q * key := (Qmult (fst a) (fst b), kmul (snd a) (snd b)).
+Fixpoint wt (sg : stree) : Q * key :=
+  match sg with
+  | SNode h subs =>
+      mmul2 (hlam h, (mono (hgam h), [hlabel h]))
+            (fold_right (fun a acc => mmul2 (wt a) acc) (1%Q, kone) subs)
+  end.
+Definition wts (subs : list stree) : Q * key := fold_right (fun a acc => mmul2 (wt a) acc) (1%Q, kone) subs.
+(* what a consistent selection is *)
+Section All3.
+  Variable P : rtree -> oid -> stree -> Prop.
+  Fixpoint all3 (cs : list rtree) (vs : list oid) (subs : list stree) : Prop :=
+    match cs, vs, subs with
+    | [], [], [] => True
+    | c :: cs', x :: vs', a :: subs' => P c x a /\ all3 cs' vs' subs'
+    | _, _, _ => False
+    end.
+End All3.
+Fixpoint sel_ok (s : list he) (t : rtree) (pv : option oid) (sg : stree) : Prop :=
+  match t, sg with
+  | RNode v cs, SNode h subs =>
+      In h s /\ hnode h = v /\
+      match child_verts pv h with
+      | Some vs => all3 (fun c x a => sel_ok s c (Some x) a) cs vs subs
+      | None => False
+      end
+  end.
+
 (* ---- Hamiltonians -------------------------------------------------------------------- *)
 (* a padded term: prefactor, symbol (0 = "1"), label of every node *)
 Definition pterm := (Q * nat * (nat -> nat))%type.
@@ -215,6 +270,13 @@ Definition sd_check (t : rtree) (H : list pterm) (d : sd) : bool :=
 Definition sd_diff (t : rtree) (H : list pterm) (d : sd) : option key :=
   poly_diff (pnorm (sd_denote t d)) (pnorm (ham_denote t H)).
 
+(* refutation with a witness: a key on which the raw sums really differ *)
+Definition sd_refute (t : rtree) (H : list pterm) (d : sd) : bool :=
+  match sd_diff t H d with
+  | Some k => negb (Qeq_bool (coef (sd_denote t d) k) (coef (ham_denote t H) k))
+  | None => false
+  end.
+
 (* ---- structural well-formedness of an exported diagram (used by the tie) --------------- *)
 Definition vx_of (d : sd) (x : oid) : option vx := find (fun v => oid_eqb (vxid v) x) (vxs d).
 Definition he_of (d : sd) (x : oid) : option he := find (fun h => oid_eqb (hid h) x) (hes d).
@@ -252,6 +314,9 @@ Definition bond_index (d : sd) (x : oid) : nat :=
   match vx_of d x with Some v => index_in x (vedge v) (vxs d) 0 | None => 0 end.
 Definition canon := (list (nat * list (nat * (Z * positive) * nat * list nat)) * list (nat * nat))%type.
 Definition qpair (q : Q) : Z * positive := let r := Qred q in (Qnum r, Qden r).
+(* the normal form of the denotation, coefficients as (numerator, denominator) *)
+Definition sd_poly (t : rtree) (d : sd) : list ((Z * positive) * key) :=
+  map (fun a => (qpair (fst a), snd a)) (pnorm (sd_denote t d)).
 Definition sd_canon (t : rtree) (d : sd) : canon :=
   (map (fun v => (v, map (fun h => (hlabel h, qpair (hlam h), hgam h, map (bond_index d) (hverts h)))
                          (filter (fun h => Nat.eqb (hnode h) v) (hes d)))) (ids t),
